@@ -288,6 +288,58 @@ def model_arg(fn, arg):
         return [arg[1], arg[2], expected_b(arg[0], arg[2])]
     return arg
 
+ENCODINGS = [None, 'utf-8', 'ascii', 'latin-1', 'utf-16']
+
+def _rt_step(db, fmt, enc, via_file):
+    from pybtex.database import parse_string, parse_file
+    kw = {'encoding': ENCODINGS[enc]} if ENCODINGS[enc] else {}
+    if not via_file:
+        return call_impl(lambda: enc_db(parse_string(db.to_string(FMTS[fmt], **kw), FMTS[fmt])))
+    def run():
+        d = tempfile.mkdtemp(prefix='c02_')
+        try:
+            f = os.path.join(d, 'f' + SUFFIX[fmt])
+            db.to_file(f, FMTS[fmt], **kw)
+            return enc_db(parse_file(f, FMTS[fmt], **kw))
+        finally:
+            shutil.rmtree(d, ignore_errors=True)
+    return call_impl(run)
+
+def impl_history(arg):
+    """a history of write/read round trips in ONE process: steps [format, encoding index, via file]; every step
+    writes its own database (steps[i][3]) and is judged on its own"""
+    if len(arg) > 1 and arg[1]:
+        # the history in a FRESH interpreter: its first write is the first write of the process
+        import subprocess, sys, json
+        p = subprocess.run([sys.executable, '-B', '-c',
+                            'import sys, json; from props import c02; print(json.dumps(c02.impl_history([json.load(sys.stdin)])))'],
+                           input=json.dumps(arg[0]), capture_output=True, text=True, timeout=120)
+        if p.returncode != 0:
+            return ['HARNESS', 'fresh interpreter failed', p.stderr[-600:]]
+        return json.loads(p.stdout.strip().splitlines()[-1])
+    out = []
+    with strict_mode():
+        for fmt, enc, via_file, w in arg[0]:
+            try:
+                db = mk_db(w)
+            except Exception:
+                out.append([2]); continue
+            out.append(_rt_step(db, fmt, enc, via_file))
+    return out
+
+def encodable(w, enc):
+    name = ENCODINGS[enc]
+    if name is None or name.startswith('utf'):
+        return True
+    try:
+        for e in w[0]:
+            S(e[0]).encode(name)
+        for t in db_strings(w):
+            t.encode(name)
+    except UnicodeError:
+        return False
+    return True
+
 PERSON = ('T', ('L', 'S'), ('L', 'S'), ('L', 'S'), ('L', 'S'), ('L', 'S'))
 ENTRY = ('T', 'S', 'S', ('L', ('T', 'S', 'S')), ('L', ('T', 'S', ('L', PERSON))))
 DB = ('T', ('L', ENTRY), ('L', 'S'))
@@ -309,6 +361,8 @@ FUNCS = {
     16: ('eval(repr(data)) (oracle only)', impl_repr_eval, ('T', DB)),
     18: ("parse_string(text, 'bibtex') as a database", impl_read_bibtex, ('T', 'S')),
     19: ('round trip / chain of A and of B derived from the Entry objects of A', impl_shared, ('T', 'X', 'X', DB)),
+    21: ('history of write/read round trips with writer encodings, one process (oracle only)', impl_history, ('T', ('L', ('T', 'X', 'X', 'X', DB)), 'X')),
+    22: ('history of round trips as the first writes of a fresh interpreter (oracle only)', impl_history, ('T', ('L', ('T', 'X', 'X', 'X', DB)), 'X')),
     20: ('pickle and repr/eval of A and of B derived from the Entry objects of A (oracle only)', impl_shared_pickle_repr, ('T', 'X', DB)),
 }
 
@@ -330,8 +384,12 @@ def _xml_canon(x):
         text = [[ord(ch) for ch in S(text[0]).strip()]] if text else text
     return [tag, i, text, [_xml_canon(c) for c in cs]]
 
+# the order-independence replay of core.py re-runs a sample in one process: the cases that start interpreters of their
+# own or go through many temp files are left out of it (they are histories themselves)
+ORDER_REPLAY_SKIP_FUNCS = (13, 20, 22)
+
 def canon(fn, r):
-    if fn in (15, 16, 20):
+    if fn in (15, 16, 20, 21, 22):
         return []          # no model: the oracle alone judges these
     if fn == 19:
         return [canon_res(x) for x in r] if isinstance(r, list) and len(r) == 2 else r
@@ -397,7 +455,7 @@ def ident_ok(s):
     return bool(_IDENT.match(s))
 
 def key_ok(s):
-    return bool(s) and all(33 <= ord(c) < 127 and c not in ',}' for c in s)
+    return bool(s) and all(ord(c) > 32 and ord(c) != 127 and c not in ',}' and c not in PY_WS and not (0x80 <= ord(c) < 0xa0) for c in s)
 
 def spellings(p):
     """BibTeX spellings of a person given by its parts: 'von Last, Jr, First Middle', 'von Last, First Middle',
@@ -416,47 +474,46 @@ def spellings(p):
     return out
 
 def person_spelling(p):
-    """a BibTeX name string that denotes exactly this person (None: not expressible in BibTeX name syntax)"""
-    from pybtex.database import Person
+    """a BibTeX name string that denotes exactly this person (None: not expressible in BibTeX name syntax).
+    What a string denotes is decided by the plain-Python reading of BibTeX name syntax of the C04 check
+    (props.c04.o_expect: Unicode-aware letter case), NOT by pybtex's own parser -- a defect of that parser must not
+    move persons out of the oracle's domain."""
+    from props.c04 import o_expect
     for part in p:
         for t in part:
             if not t:
                 return None
     if not any(p):
         return None
+    want = [[S(t) for t in part] for part in p]
     for text in spellings(p):
         if not (balanced(text) and max_depth(text) < 90):
             continue
         try:
-            with strict_mode():
-                back = enc_person(Person(text))
+            back, rep = o_expect(text)
         except Exception:
             continue
-        if norm(back) == norm(p):
+        if not rep and [list(x) for x in back] == want:
             return text
     return None
 
 def persons_expressible(ps):
-    """every person of the role is denoted by some BibTeX name string, and the ' and '-joined list of these
-    strings denotes the list"""
-    from pybtex.database import Person
-    from pybtex.bibtex.utils import split_name_list
+    """every person of the role is denoted by some BibTeX name string; no token is the word 'and' (any letter case),
+    so that the ' and '-joined list of these strings denotes the list"""
     if not ps:
         return False
-    texts = [person_spelling(p) for p in ps]
-    if any(t is None for t in texts):
-        return False
     for p in ps:
+        if person_spelling(p) is None:
+            return False
         for part in p:
             for t in part:
-                if not ws_normalised(S(t)):
+                t = S(t)
+                if not ws_normalised(t) or t.lower() == 'and' or any(c in PY_WS for c in t if not _inside_braces(t)):
                     return False
-    try:
-        with strict_mode():
-            back = [enc_person(Person(n)) for n in split_name_list(' and '.join(texts))]
-    except Exception:
-        return False
-    return norm(back) == norm(ps)
+    return True
+
+def _inside_braces(t):
+    return '{' in t
 
 def db_strings(w):
     for key, otype, fields, persons in w[0]:
@@ -502,8 +559,6 @@ def in_domain(w, fmts):
         if 0 in fmts and not ws_normalised(s):
             return False
         if 1 in fmts and not xml_ok(s):
-            return False
-        if any(ord(c) > 0x2fff for c in s):
             return False
     if len(w[1]) > 0 and not all(S(x) for x in w[1]):
         return False
@@ -575,6 +630,16 @@ def oracle(fn, arg, out):
 _LAST = [False]
 def _oracle(fn, arg, out):
     _LAST[0] = False
+    if fn in (21, 22):
+        # each step of the history on its own: with an encoding that can carry the text the round trip is the identity
+        # (BibTeX with 'ascii' / 'latin-1' and text outside that repertoire writes LaTeX escapes or raises: outside the identity domain)
+        for i, ((fmt, enc, via_file, w), o) in enumerate(zip(arg[0], out)):
+            if fmt == 0 and not encodable(w, enc):
+                continue
+            m = _oracle(12, [fmt, w], o)
+            if m and not (fmt == 0 and has_five(w)) and not (fmt == 2 and type_field(w)):
+                return 'step %d of %d (%s, encoding=%r, %s): %s' % (i + 1, len(arg[0]), FMTS[fmt], ENCODINGS[enc], 'file' if via_file else 'string', m)
+        return None
     if fn in (19, 20):
         # every database keeps its OWN keys (the dictionary keys, in order), whatever other database holds the same Entry objects
         way, w = arg[0], arg[-1]
@@ -691,6 +756,8 @@ def describe(fn, arg):
             return pd(arg[0])
         if fn == 12:
             return {'format': FMTS[arg[0]], 'database': pd(arg[1])}
+        if fn in (21, 22):
+            return {'history': [{'format': FMTS[f], 'encoding': ENCODINGS[e], 'via': 'file' if v else 'string', 'database': pd(w)} for f, e, v, w in arg[0]]}
         if fn in (19, 20):
             return {'B derived by': WAYS[arg[0]], 'operation': (['bibtex', 'bibtexml', 'yaml', 'chain bibtexml>bibtex>yaml', 'chain yaml>bibtexml lower'][arg[1]] if fn == 19 else 'pickle, repr/eval'), 'database A': pd(arg[-1])}
         if fn == 13:
@@ -700,7 +767,7 @@ def describe(fn, arg):
     return {'fn': fn, 'arg': arg}
 
 def nontrivial(fn, arg, out):
-    if fn in (15, 16, 19, 20):
+    if fn in (15, 16, 19, 20, 21, 22):
         return True
     if not (isinstance(out, list) and out and out[0] == 0):
         return fn in (1, 2)
@@ -731,6 +798,22 @@ RETYPE = ['007', '03', '0704', '0', '1e3', '1.5', '-1', '+2', '0x10', '0o7', '0b
           ',', ', ', 'a,b']
 RETYPE_FIVE = ['&', '&a', 'a & b', '# c', 'a #b', '~', '1_0', 'a ~ b']      # contain one of the five characters (BibTeX: F18)
 RETYPE_WS = [' lead', 'trail ', ' both ', 'a  b', 'a\tb', 'a\nb', ' ', '\n', 'a \n b', '\u00a0x']  # not whitespace-normalised (outside the BibTeX domain)
+
+UNI_VALUES = ['caf\u00e9 cr\u00e8me', 'Stra\u00dfe', '\u00c5ngstr\u00f6m', 'na\u00efve {\u00e9}', '\u0416\u0443\u0440\u043d\u0430\u043b \u0444\u0438\u0437\u0438\u043a\u0438', '\u65e5\u672c\u8a9e \u306e \u672c',
+              'e\u0301 a\u0308 (combining)', '\u05d3\u05d5\u05d3 \u05d1\u05df', '\u0645\u062d\u0645\u062f', '\u0939\u093f\u0928\u094d\u0926\u0940', '\u0394\u03b9\u03b1 \u03b4\u03b9\u03b1', '\u00a0nbsp', 'x\u2014y \u201cq\u201d', '\U0001d400 astral']
+UNI_KEYS = ['k\u043b\u044e\u0447', 'M\u00fcller2001', '\u65e5\u672c', 'cle\u0301']
+
+def unicode_persons():
+    """names in cased and caseless scripts: multi-token last names, lower-case (von) tokens in Greek / Cyrillic"""
+    return [[['\u05d3\u05d5\u05d3'], [], [], ['\u05d1\u05df', '\u05d2\u05d5\u05e8\u05d9\u05d5\u05df'], []],          # Hebrew: two last-name tokens, caseless
+            [['\u0645\u062d\u0645\u062f'], [], [], ['\u0628\u0646', '\u0633\u0644\u0645\u0627\u0646'], []],            # Arabic
+            [['\u5c71\u7530'], ['\u592a'], [], ['\u5927', '\u90ce'], []],                                   # CJK
+            [['\u0930\u093e\u092e'], [], [], ['\u0936\u0930\u094d\u092e\u093e', '\u0935\u0930\u094d\u092e\u093e'], []],          # Devanagari
+            [['\u0399\u03c9\u03ac\u03bd\u03bd\u03b7\u03c2'], [], ['\u03c4\u03bf\u03c5'], ['\u0391\u03b3\u03c1\u03bf\u03cd'], []],                # Greek: lower-case von token
+            [['\u0418\u0432\u0430\u043d'], ['\u041f.'], ['\u0432\u0430\u043d', '\u0434\u0435\u0440'], ['\u0412\u0430\u0430\u043b\u044c\u0441'], []],        # Cyrillic: von part
+            [['\u0418\u0432\u0430\u043d'], [], [], ['\u0411\u043e\u043b\u044c\u0448\u043e\u0439', '\u041c\u0430\u043b\u044b\u0439'], ['\u043c\u043b.']],  # Cyrillic: two upper-case last tokens, jr
+            [['Jos\u00e9'], [], ['de', 'la'], ['\u00d1u\u00f1ez', '\u00c1lvarez'], []],
+            [['\u05d3\u05d5\u05d3'], [], [], [], []]]
 
 def explicit_persons():
     """persons given by explicit parts, including those without a last name"""
@@ -1067,6 +1150,35 @@ def _gen(tier, rng):
                     continue
                 yield ('exhaustive_chains', 13, [c, pc, w])
 
+    # ---- non-ASCII text in values, name tokens and keys, the writer's encoding option as a dimension (oracle only:
+    #      the model's letter classes are ASCII), and histories of writes with different encodings in one process
+    uni_dbs = []
+    ups = unicode_persons()
+    for i, v in enumerate(UNI_VALUES):
+        uni_dbs.append([[[UNI_KEYS[i % len(UNI_KEYS)], 'book', [['title', v], ['note', UNI_VALUES[(i + 3) % len(UNI_VALUES)]]], [['author', [ups[i % len(ups)]]]]]], [v] if i % 3 == 0 else []])
+    for i, p in enumerate(ups):
+        uni_dbs.append(db_of('T', p)); uni_dbs.append([[['k', 'book', [], [['editor', [parse_person('Donald E. Knuth'), p]]]]], []])
+    ascii_db = db_of('plain {A} text', parse_person('de la Fontaine, Jean'))
+    latin_db = db_of('caf\u00e9 Stra\u00dfe', [['Jos\u00e9'], [], [], ['N\u00fa\u00f1ez'], []], key='M\u00fcller')
+    for w in uni_dbs + [ascii_db, latin_db]:
+        for fmt in (0, 1, 2):
+            for enc in range(len(ENCODINGS)):
+                yield ('unicode_encodings', 21, [[[fmt, enc, 0, w]], 0])
+                if not quick or (fmt + enc) % 2 == 0:
+                    yield ('unicode_encodings', 21, [[[fmt, enc, 1, w]], 0])
+    hist_dbs = [uni_dbs[0], uni_dbs[4], uni_dbs[len(UNI_VALUES)], latin_db]
+    for w in hist_dbs:
+        for first in ([0, 2, 0, ascii_db], [0, 2, 1, ascii_db], [0, 3, 0, latin_db], [0, 4, 1, w], [1, 2, 1, w], [2, 4, 0, w]):
+            for then in ([0, 0, 0, w], [0, 1, 1, w], [0, 4, 0, w]):
+                yield ('history', 21, [[first, then], 0])
+                yield ('history', 21, [[first, [2, 0, 0, w], then], 0])
+    # the same kind of history as the FIRST writes of a fresh interpreter (a process-wide cache filled by the first write)
+    for first in ([0, 2, 0, ascii_db], [0, 2, 1, ascii_db], [0, 3, 0, latin_db], [0, 4, 1, ascii_db], [1, 2, 0, ascii_db], [2, 2, 0, ascii_db]):
+        for k, w in enumerate(hist_dbs[:1] if quick else hist_dbs):
+            yield ('history_fresh_process', 22, [[first, [0, 0, k % 2, w], [0, 1, 1 - k % 2, w]], 1])
+    for i in range(20 if quick else 300):
+        steps = [[rng.choice([0, 0, 1, 2]), rng.randrange(len(ENCODINGS)), rng.randint(0, 1), rng.choice(uni_dbs + [ascii_db, latin_db])] for _ in range(rng.randint(2, 3))]
+        yield ('history', 21, [steps, 0])
     # ---- shared Entry objects: B derived from A's Entry objects in every public way, THEN A and B are written / read
     kn = parse_person('Donald E. Knuth')
     shared = [[[['Knuth84', 'Book', [['Title', 'A {B}'], ['YEAR', '1984']], [['author', [kn]]]], ['k2', 'misc', [['note', 'x']], []], ['UPPER', 'Article', [], [['Editor', [kn, parse_person('de la Fontaine, Jean')]]]]], ['pre']],
@@ -1182,7 +1294,7 @@ RULE = ('pinned: the inputs of the findings (F18 five characters, FC02b field "t
         'persons: 19 parsed names (parts of up to 6 tokens) x 4 role spellings x 3 formats and all part lists over a pool of 8 tokens (empty, trailing backslash, ~, braced); '
         'identifiers: 14 keys x 3 types x 5 field names x roles x formats/lower/repr; every chain of <= 3 formats x preserve_case. '
         'random: databases of 1-4 entries with 0-4 fields, 0-2 roles of 1-3 persons (parsed names or random token lists), optional preamble; '
-        'shared_entries: a second database B is built from the Entry OBJECTS of A in every public way (constructor with a mapping / with re-keyed pairs / with wanted_entries in another spelling, add_entry and add_entries under other keys and letter case, lower()) and only then A and B are written and read back in every format, through two chains, pickled and repr-ed: each must keep its own keys; malformed: unbalanced / un-normalised values, repeated keys and fields, persons with empty or spaced tokens; reader trees: the YAML / XML tree of random databases and token-level damaged copies; '
+        'unicode_encodings / history: non-ASCII values, keys and name tokens (accented Latin, Cyrillic, Greek, Hebrew, Arabic, Devanagari, CJK, combining marks, astral) x formats x writer encoding (None, utf-8, ascii, latin-1, utf-16) x string / file, and histories of 2-3 such writes with different encodings in one process, each judged on its own (identity whenever the encoding can carry the text); shared_entries: a second database B is built from the Entry OBJECTS of A in every public way (constructor with a mapping / with re-keyed pairs / with wanted_entries in another spelling, add_entry and add_entries under other keys and letter case, lower()) and only then A and B are written and read back in every format, through two chains, pickled and repr-ed: each must keep its own keys; malformed: unbalanced / un-normalised values, repeated keys and fields, persons with empty or spaced tokens; reader trees: the YAML / XML tree of random databases and token-level damaged copies; '
         '.bib texts: writer output and character-level damaged copies. '
         'distinct = distinct (function, argument); non-trivial = the model reads back at least one entry (round trips) / produces a non-empty result.')
 EXHAUSTIVE = {'quick': 'Writer.quote on all strings over {a,{,},",\\,space} of length <= 5; check_braces <= 4; latex encoder on all strings over {a,~,space,#,\\,{} of length <= 4; value pool x formats; person pool x roles x formats; all format chains of length <= 3 x preserve_case',
